@@ -6,7 +6,7 @@ from . import common
 
 
 # modules with a gen() that regenerates coq/theories/Gen/*.v from /repo
-GEN_MODULES = ["c20", "c12"]
+GEN_MODULES = ["c20", "c12", "c13"]
 
 
 def main():
